@@ -85,6 +85,13 @@ func (p *c03) Run(w *lib.Worker, idx int, r *lib.Rand) lib.Case {
 			return c
 		}
 		expectErr := fault != "" && (!strictOnly || cfg.Strict)
+		if expectErr && o.Valid && c03KnownMissing[fault] != "" {
+			// recorded finding: this rule is not enforced at this place
+			c.Known = []string{c03KnownMissing[fault]}
+			c.KnownWhat = fmt.Sprintf("fault %s, %+v: no error reported", fault, cfg)
+			c.Sample = sample
+			continue
+		}
 		if expectErr && o.Valid {
 			c.Viol = &lib.Violation{What: fmt.Sprintf("rule broken (%s) but no error reported with %+v: %s", fault, cfg, text), Detail: sample}
 			return c
@@ -121,6 +128,12 @@ func (p *c03) Run(w *lib.Worker, idx int, r *lib.Rand) lib.Case {
 		}
 	}
 	return c
+}
+
+// faults which a recorded finding explains when they go unreported
+var c03KnownMissing = map[string]string{
+	"array-no-items-referenced-response-typelist": "array-items-rule-skips-referenced-responses",
+	"two-body-params-go-name-collision":           "go-name-collision-drops-parameter",
 }
 
 // onlyLiteralXOverlap: every error is the overlap message between <base>/{id} and <base>/X.
